@@ -13,6 +13,18 @@ package cmpp30
 //@   theory T1
 //@   layout dec
 
+//@ func (c *Connect) GetCommand
+//@   layout cmd
+
+//@ func (c *Connect) GenEmptyResponse
+//@   layout resp
+
+//@ func (p *Connect) SetSequenceID
+//@   layout setseq
+
+//@ func (c *Connect) GetSequenceID
+//@   layout getseq
+
 //@ func (c *ConnectResp) IEncode
 //@   theory T1
 //@   layout enc
@@ -20,6 +32,18 @@ package cmpp30
 //@ func (c *ConnectResp) IDecode
 //@   theory T1
 //@   layout dec
+
+//@ func (c *ConnectResp) GetCommand
+//@   layout cmd
+
+//@ func (c *ConnectResp) GenEmptyResponse
+//@   layout resp
+
+//@ func (c *ConnectResp) SetSequenceID
+//@   layout setseq
+
+//@ func (c *ConnectResp) GetSequenceID
+//@   layout getseq
 
 //@ func (t *Terminate) IEncode
 //@   theory T1
@@ -29,6 +53,18 @@ package cmpp30
 //@   theory T1
 //@   layout dec
 
+//@ func (t *Terminate) GetCommand
+//@   layout cmd
+
+//@ func (t *Terminate) GenEmptyResponse
+//@   layout resp
+
+//@ func (t *Terminate) SetSequenceID
+//@   layout setseq
+
+//@ func (t *Terminate) GetSequenceID
+//@   layout getseq
+
 //@ func (t *TerminateResp) IEncode
 //@   theory T1
 //@   layout enc
@@ -36,6 +72,18 @@ package cmpp30
 //@ func (t *TerminateResp) IDecode
 //@   theory T1
 //@   layout dec
+
+//@ func (t *TerminateResp) GetCommand
+//@   layout cmd
+
+//@ func (t *TerminateResp) GenEmptyResponse
+//@   layout resp
+
+//@ func (t *TerminateResp) SetSequenceID
+//@   layout setseq
+
+//@ func (t *TerminateResp) GetSequenceID
+//@   layout getseq
 
 //@ func (s *Submit) IEncode
 //@   theory T1
@@ -45,6 +93,18 @@ package cmpp30
 //@   theory T1
 //@   layout dec
 
+//@ func (s *Submit) GetCommand
+//@   layout cmd
+
+//@ func (s *Submit) GenEmptyResponse
+//@   layout resp
+
+//@ func (s *Submit) SetSequenceID
+//@   layout setseq
+
+//@ func (s *Submit) GetSequenceID
+//@   layout getseq
+
 //@ func (s *SubmitResp) IEncode
 //@   theory T1
 //@   layout enc
@@ -52,6 +112,18 @@ package cmpp30
 //@ func (s *SubmitResp) IDecode
 //@   theory T1
 //@   layout dec
+
+//@ func (s *SubmitResp) GetCommand
+//@   layout cmd
+
+//@ func (s *SubmitResp) GenEmptyResponse
+//@   layout resp
+
+//@ func (s *SubmitResp) SetSequenceID
+//@   layout setseq
+
+//@ func (s *SubmitResp) GetSequenceID
+//@   layout getseq
 
 //@ func (q *Query) IEncode
 //@   theory T1
@@ -61,6 +133,18 @@ package cmpp30
 //@   theory T1
 //@   layout dec
 
+//@ func (q *Query) GetCommand
+//@   layout cmd
+
+//@ func (q *Query) GenEmptyResponse
+//@   layout resp
+
+//@ func (q *Query) SetSequenceID
+//@   layout setseq
+
+//@ func (q *Query) GetSequenceID
+//@   layout getseq
+
 //@ func (q *QueryResp) IEncode
 //@   theory T1
 //@   layout enc
@@ -68,6 +152,18 @@ package cmpp30
 //@ func (q *QueryResp) IDecode
 //@   theory T1
 //@   layout dec
+
+//@ func (q *QueryResp) GetCommand
+//@   layout cmd
+
+//@ func (q *QueryResp) GenEmptyResponse
+//@   layout resp
+
+//@ func (q *QueryResp) SetSequenceID
+//@   layout setseq
+
+//@ func (q *QueryResp) GetSequenceID
+//@   layout getseq
 
 //@ func (d *Deliver) IEncode
 //@   theory T1
@@ -77,6 +173,18 @@ package cmpp30
 //@   theory T1
 //@   layout dec
 
+//@ func (d *Deliver) GetCommand
+//@   layout cmd
+
+//@ func (d *Deliver) GenEmptyResponse
+//@   layout resp
+
+//@ func (d *Deliver) SetSequenceID
+//@   layout setseq
+
+//@ func (d *Deliver) GetSequenceID
+//@   layout getseq
+
 //@ func (d *DeliverResp) IEncode
 //@   theory T1
 //@   layout enc
@@ -84,6 +192,18 @@ package cmpp30
 //@ func (d *DeliverResp) IDecode
 //@   theory T1
 //@   layout dec
+
+//@ func (d *DeliverResp) GetCommand
+//@   layout cmd
+
+//@ func (d *DeliverResp) GenEmptyResponse
+//@   layout resp
+
+//@ func (d *DeliverResp) SetSequenceID
+//@   layout setseq
+
+//@ func (d *DeliverResp) GetSequenceID
+//@   layout getseq
 
 //@ func (c *Cancel) IEncode
 //@   theory T1
@@ -93,6 +213,18 @@ package cmpp30
 //@   theory T1
 //@   layout dec
 
+//@ func (c *Cancel) GetCommand
+//@   layout cmd
+
+//@ func (c *Cancel) GenEmptyResponse
+//@   layout resp
+
+//@ func (c *Cancel) SetSequenceID
+//@   layout setseq
+
+//@ func (c *Cancel) GetSequenceID
+//@   layout getseq
+
 //@ func (c *CancelResp) IEncode
 //@   theory T1
 //@   layout enc
@@ -100,6 +232,18 @@ package cmpp30
 //@ func (c *CancelResp) IDecode
 //@   theory T1
 //@   layout dec
+
+//@ func (c *CancelResp) GetCommand
+//@   layout cmd
+
+//@ func (c *CancelResp) GenEmptyResponse
+//@   layout resp
+
+//@ func (c *CancelResp) SetSequenceID
+//@   layout setseq
+
+//@ func (c *CancelResp) GetSequenceID
+//@   layout getseq
 
 //@ func (p *ActiveTest) IEncode
 //@   theory T1
@@ -109,6 +253,18 @@ package cmpp30
 //@   theory T1
 //@   layout dec
 
+//@ func (a *ActiveTest) GetCommand
+//@   layout cmd
+
+//@ func (a *ActiveTest) GenEmptyResponse
+//@   layout resp
+
+//@ func (p *ActiveTest) SetSequenceID
+//@   layout setseq
+
+//@ func (a *ActiveTest) GetSequenceID
+//@   layout getseq
+
 //@ func (pr *ActiveTestResp) IEncode
 //@   theory T1
 //@   layout enc
@@ -117,4 +273,39 @@ package cmpp30
 //@   theory T1
 //@   layout dec
 
+//@ func (a *ActiveTestResp) GetCommand
+//@   layout cmd
+
+//@ func (a *ActiveTestResp) GenEmptyResponse
+//@   layout resp
+
+//@ func (pr *ActiveTestResp) SetSequenceID
+//@   layout setseq
+
+//@ func (a *ActiveTestResp) GetSequenceID
+//@   layout getseq
+
+//@ func DecodeCMPP30
+//@   layout dispatch
+
 // ---- hand-written below ----
+
+//@ func (s *Submit) IEncode
+//@   loop 1
+//@     invariant packet.winv(b)
+//@     invariant -1 <= rangeindex && rangeindex < len(s.DestTerminalID)
+//@     invariant entry(packet.wfailed(b)) ==> packet.wfailed(b)
+//@     invariant !entry(packet.wfailed(b)) && (forall j int :: 0 <= j && j <= rangeindex ==> len(s.DestTerminalID[j]) <= 32) ==> !packet.wfailed(b) && packet.view(b) == cat(entry(packet.view(b)), rep(elems(s.DestTerminalID), 32, 0, rangeindex + 1))
+//@     decreases len(s.DestTerminalID) - rangeindex
+
+//@ func (s *Submit) IDecode
+//@   loop 1
+//@     invariant packet.rinv(b)
+//@     invariant 0 <= i && i <= int(s.DestUsrTL)
+//@     invariant entry(packet.rfailed(b)) ==> packet.rfailed(b)
+//@     invariant !packet.rfailed(b) ==> len(packet.rem(b)) <= entry(len(packet.rem(b)))
+//@     invariant alloc <= entry(alloc) + 64 * i
+//@     invariant @dec !packet.rfailed(b) && packet.rem(b) == cat(rep(elems(gq.DestTerminalID), 32, i, len(gq.DestTerminalID)), laysuffix(gq, "DestTerminalID"))
+//@     invariant @dec forall j int :: 0 <= j && j < i ==> s.DestTerminalID[j] == gq.DestTerminalID[j]
+//@     invariant @safe !packet.rfailed(b) ==> (forall j int :: 0 <= j && j < i ==> nonul(s.DestTerminalID[j]) && len(s.DestTerminalID[j]) <= 32)
+//@     decreases int(s.DestUsrTL) - i
